@@ -138,6 +138,9 @@ func cmdCheck(args []string) {
 				rep.Obligations++
 			}
 		}
+		for _, a := range c.Lemmas {
+			assumptions = append(assumptions, fmt.Sprintf("%s: post-condition assumed by a pencil-and-paper lemma (DESIGN.md), not proved: [%s] %s", name, a.Label, a.Expr))
+		}
 		for _, a := range c.Assumes {
 			assumptions = append(assumptions, fmt.Sprintf("%s assumes [%s] %s", name, a.Label, a.Expr))
 		}
